@@ -258,6 +258,10 @@ def rn_int_ordinal(n, k, f):
         return 0
     a = -n if n < 0 else n
     e = a.bit_length() - 1 + k
+    if e < f.emin - f.p - 1:
+        return 0  # below half the smallest subnormal
+    if e > f.emax:
+        return -f.inf_bits if n < 0 else f.inf_bits
     ee = e if e > f.emin else f.emin
     shift = ee - f.p + 1 - k
     if shift <= 0:
